@@ -98,6 +98,12 @@ func (b *Stack[T]) WaitSizeIsAbove(threshold int) {
 	}
 }
 
+// SignalShutdown wakes up all goroutines that are waiting in PopOrWait so that they re-evaluate their wait condition.
+// The mutex is held while broadcasting: PopOrWait evaluates its wait condition and goes to sleep under the same mutex,
+// so a waiter either sees the changed condition or is already asleep when the broadcast is sent (no missed wake-up).
 func (b *Stack[T]) SignalShutdown() {
+	b.mutex.Lock()
+	defer b.mutex.Unlock()
+
 	b.elementAdded.Broadcast()
 }
